@@ -155,8 +155,37 @@ def _matrix_call(case, dim, dx, bc, bc_params):
     kw.update(_stencil_args(case) if _is_user(case) else {'stencil_type': case['type']})
     if bc_params is not None:
         kw['bc_params'] = bc_params
+    import copy
+
+    before = copy.deepcopy(kw)
     A, b = get_finite_difference_matrix(**kw)
+    # the same request made again after another request (another derivative on the same grid) must give the same answer
+    # bit for bit (the routine writes the merged defaults back into the caller's bc_params list; the property does not
+    # forbid that, so every call gets its own copy of the request)
+    try:
+        get_finite_difference_matrix(**dict(copy.deepcopy(before), derivative=1 if case['derivative'] != 1 else 2))
+    except Exception:  # noqa: BLE001  (judged where that request is the case)
+        pass
+    A2, b2 = get_finite_difference_matrix(**copy.deepcopy(before))
+    if A2.shape != A.shape or (A2 != A).nnz != 0 or not np.array_equal(np.asarray(b2, dtype=float), np.asarray(b, dtype=float)):
+        raise ArgumentsModified('the same request made a second time (after another request) returned another operator')
     return A, np.asarray(b, dtype=float)
+
+
+class ArgumentsModified(Exception):
+    pass
+
+
+def _same_args(a, b):
+    if type(a) is not type(b):
+        return False
+    if isinstance(a, dict):
+        return a.keys() == b.keys() and all(_same_args(a[k], b[k]) for k in a)
+    if isinstance(a, (list, tuple)):
+        return len(a) == len(b) and all(_same_args(x, y) for x, y in zip(a, b))
+    if isinstance(a, np.ndarray):
+        return a.shape == b.shape and bool(np.all(a == b))
+    return a == b
 
 
 def _kron_compare(A_nd, A1_dense, dim):
